@@ -2,6 +2,8 @@
 From Coq Require Import List String Bool Arith.
 From Annet Require Import Base.Str Base.Tree Model.Pattern Model.Acl Model.Offside Model.GenProg Model.GenAcl.
 From Annet Require Import Spec.P_C10 Proofs.GenProgProofs Proofs.GenAclProofs Proofs.GenTopProofs.
+From Annet Require Import Spec.P_C05 Spec.P_C10b Gen.Src_vendors Model.Join Model.GenProgV Spec.P_C10v.
+From Annet Require Import Proofs.GenItemsProofs Proofs.GenCursorProofs Proofs.GenCursorCons Proofs.GenSplitProofs.
 Import ListNotations.
 Open Scope string_scope.
 
@@ -352,3 +354,235 @@ Proof. vm_compute. reflexivity. Qed.
 
 Example C10_example_gen_ok : gen_ok ex_g0 /\ gen_ok ex_g1.
 Proof. split; (split; [vm_compute; reflexivity|eexists; vm_compute; reflexivity]). Qed.
+
+(* ====================================================================================================
+   The tree clause on the whole domain of programs (Spec/P_C10b.v).
+   ==================================================================================================== *)
+
+(* Layer 1, no guard.  For EVERY generator program the outcome of _run_partial_generator(use_acl=False) is
+   determined by the program's list of (column, raw row) pairs: GeneratorError(InvalidValueFromGenerator)
+   iff the run reaches a None / list value; else the None assertion iff a row contains the word None; else
+   the offside reference of C05 over the rows, where a row is a '#' section reset (column 0), vanishes
+   (blank, "!" or "#" comment) or is a line in column  block column + own indentation. *)
+Theorem C10_run_items : forall p : prog, run_noacl p = spec_noacl p.
+Proof. exact run_items. Qed.
+Print Assumptions C10_run_items.
+
+Theorem C10_items_holds : forall p : prog, P_C10_items p (run_noacl p) = true.
+Proof. exact items_holds. Qed.
+Print Assumptions C10_items_holds.
+
+(* yields of None, lists, tuples containing None, None among the tokens of an opened block: the run
+   fails with the invalid-value error iff such a value is reached (never skipped, never printed) *)
+Theorem C10_invalid_iff : forall p : prog, run_noacl p = GInvalid <-> existsb invalid p = true.
+Proof. exact invalid_iff. Qed.
+Print Assumptions C10_invalid_iff.
+
+Theorem C10_noneword_iff :
+  forall p : prog,
+    run_noacl p = GNoneWord <->
+    existsb invalid p = false /\ exists cr, In cr (prog_rows p) /\ has_none_word (snd cr) = true.
+Proof. exact noneword_iff. Qed.
+Print Assumptions C10_noneword_iff.
+
+(* Layer 2, the general tree theorem: parse (emit prog) = tree_of' prog under the computable guard
+   wfx_prog.  tree_of' is the ordered dict of the yielded paths where
+     - blank rows and "!"/"#" comment rows vanish (a '#' row in column 0 also closes the section);
+     - a row indented by itself is placed by the offside rule among the recent rows of its own block;
+     - the body of a block hangs under the most recent visible row of the block indented by less than the
+       block's indent: the last visible line of a (possibly multi-line) header, or, when the whole header
+       vanishes, the row yielded just before the block;
+     - indent=0 keeps the body in the block's own column under the same block path; any other indent;
+     - block_if / multiblock_if open their blocks exactly under their conditions (falsy but printable
+       tokens such as "0" or "False" do open the block).
+   Outside the guard (see the _refuted witnesses below) Layer 1 still gives the exact outcome. *)
+Theorem C10_emit_parse_gen :
+  forall p : prog, wfx_prog p = true -> run_noacl p = GOk (tree_of' p).
+Proof. exact emit_parse_gen. Qed.
+Print Assumptions C10_emit_parse_gen.
+
+Theorem C10_tree'_holds : forall p : prog, P_C10_tree' p (run_noacl p) = true.
+Proof. exact tree'_holds. Qed.
+Print Assumptions C10_tree'_holds.
+
+Theorem C10_tree'_once : forall p : prog, wf (tree_of' p).
+Proof. exact tree_of'_wf. Qed.
+Print Assumptions C10_tree'_once.
+
+(* ... it holds every yielded path, and nothing but the yielded paths and the rows above them *)
+Theorem C10_tree'_paths :
+  forall (p : prog) (q : list string), q <> [] ->
+    (mem_path q (tree_of' p) = true <-> exists p0, In p0 (prog_paths' p) /\ prefixb q p0 = true).
+Proof. exact tree_of'_paths. Qed.
+Print Assumptions C10_tree'_paths.
+
+Theorem C10_tree'_yielded :
+  forall (p : prog) (q : list string), In q (prog_paths' p) -> mem_path q (tree_of' p) = true.
+Proof. exact tree_of'_yielded. Qed.
+Print Assumptions C10_tree'_yielded.
+
+(* the general theorem extends C10_emit_parse: plain programs are inside the wider guard, with the same
+   yielded paths and the same tree *)
+Theorem C10_gen_extends :
+  forall p : prog, wf_prog p = true ->
+    wfx_prog p = true /\ prog_paths' p = prog_paths p /\ tree_of' p = tree_of p.
+Proof. exact wfx_extends. Qed.
+Print Assumptions C10_gen_extends.
+
+(* the device vendor's own formatter.split in the parse step (plain-indentation family: CommonFormatter,
+   split_remove_spaces, the huawei / iosxr policy-end filters, CiscoFormatter's re-indentation): a program
+   none of whose emitted lines the split touches has the same outcome as with CommonFormatter.split, so both
+   layers carry over *)
+Theorem C10_vendor_split_neutral :
+  forall (sk : splitk) (p : prog), split_neutral sk p = true -> run_noacl_sk sk p = run_noacl p.
+Proof. exact run_noacl_sk_neutral. Qed.
+Print Assumptions C10_vendor_split_neutral.
+
+Theorem C10_emit_parse_gen_vendor :
+  forall (sk : splitk) (p : prog),
+    wfx_prog p = true -> split_neutral sk p = true -> run_noacl_sk sk p = GOk (tree_of' p).
+Proof. exact emit_parse_gen_sk. Qed.
+Print Assumptions C10_emit_parse_gen_vendor.
+
+Theorem C10_vendor_holds :
+  forall (name : string) (sk : splitk) (p : prog),
+    vendor_splitk name = Some sk -> P_C10_vendor name p (run_noacl_sk sk p) = true.
+Proof. exact vendor_holds. Qed.
+Print Assumptions C10_vendor_holds.
+
+(* ---------- non-vacuity of the wider guard ---------- *)
+
+Definition nl1 : string := String nl EmptyString.
+
+(* comment / blank rows, a comment header after a row, nested vanishing headers, a multi-line header, a
+   three-blank indent, a '#' row at top level, a text with its own nesting *)
+Definition ex_prog_x : prog :=
+  [ Block [TS "interface X1"] None
+      [ Yield (YS "mtu 1");
+        Block [TS "# vanishing header"] None [Yield (YS "b"); Block [TS "!"] None [Yield (YS "z")]];
+        Yield (YS ""); Yield (YS "   "); Yield (YS "! note");
+        Yield (YS "shutdown") ];
+    Yield (YS "#");
+    Block [TS ("acl 1" ++ nl1 ++ "acl 2")] (Some 3)
+      [ Yield (YS ("rule 1" ++ nl1 ++ "  match a" ++ nl1 ++ "    deep" ++ nl1 ++ "  match b" ++ nl1 ++ "rule 2")) ];
+    Block [TS "system"] (Some 0) [Yield (YS "sysname r1")];
+    BlockIf [TS "area"; TS "0"] None [Yield (YS "network 1")] ].
+
+Example C10_example_x_guard : wfx_prog ex_prog_x = true /\ wf_prog ex_prog_x = false.
+Proof. vm_compute. split; reflexivity. Qed.
+
+Example C10_example_x_tree :
+  run_noacl ex_prog_x =
+  GOk [("interface X1", T [("mtu 1", T [("b", T [("z", T [])])]); ("shutdown", T [])]);
+       ("acl 1", T []);
+       ("acl 2", T [("rule 1", T [("match a", T [("deep", T [])]); ("match b", T [])]); ("rule 2", T [])]);
+       ("system", T []); ("sysname r1", T []);
+       ("area 0", T [("network 1", T [])])].
+Proof. vm_compute. reflexivity. Qed.
+
+(* the vendor guards are not idle either: huawei (strip().startswith policy-end filter) on the same program *)
+Example C10_example_x_huawei :
+  vendor_splitk "huawei" = Some (SkStartswith ["end-list"; "endif"; "end-filter"]) /\
+  split_neutral (SkStartswith ["end-list"; "endif"; "end-filter"]) ex_prog_x = true.
+Proof. vm_compute. split; reflexivity. Qed.
+
+(* ---------- the classes outside the guard: each refutes the unguarded statement ---------- *)
+
+(* "every program that yields only valid values free of the word None parses to tree_of'" *)
+Definition C10_emit_parse_gen_statement : Prop :=
+  forall p : prog, existsb invalid p = false ->
+    existsb (fun cr : crow => has_none_word (snd cr)) (prog_rows p) = false ->
+    run_noacl p = GOk (tree_of' p).
+
+(* (a) a block whose header vanishes, first in its block, followed by a sibling: the body is deeper than
+   the sibling's column with no line in that column before it - ParserError "Invalid top indention" *)
+Definition ex_vanishing_first : prog :=
+  [Block [TS "a"] None [Block [TS ""] None [Yield (YS "b")]; Yield (YS "c")]].
+
+Theorem C10_emit_parse_gen_refuted : ~ C10_emit_parse_gen_statement.
+Proof.
+  intros H. specialize (H ex_vanishing_first eq_refl eq_refl). vm_compute in H. discriminate.
+Qed.
+Print Assumptions C10_emit_parse_gen_refuted.
+
+Theorem C10_vanishing_header_refuted :
+  exists p, existsb invalid p = false /\ wfx_prog p = false /\ run_noacl p = GParse 4 "c".
+Proof. exists ex_vanishing_first. vm_compute. repeat split; reflexivity. Qed.
+Print Assumptions C10_vanishing_header_refuted.
+
+(* (b) a row indented by itself with no known recent row of its block (here: the very first row): it
+   fixes the text's left margin, the next row in the block's real column is refused *)
+Theorem C10_leading_blank_refuted :
+  exists p, existsb invalid p = false /\ wfx_prog p = false /\ run_noacl p = GParse 2 "b".
+Proof. exists [Yield (YS " a"); Yield (YS "b")]. vm_compute. repeat split; reflexivity. Qed.
+Print Assumptions C10_leading_blank_refuted.
+
+(* (c) a row indented by itself into a column that no open row of its block started: refused *)
+Theorem C10_inner_dedent_refuted :
+  exists p, existsb invalid p = false /\ wfx_prog p = false /\ run_noacl p = GParse 3 "c".
+Proof.
+  exists [Yield (YS ("a" ++ nl1 ++ "    b" ++ nl1 ++ "  c"))]. vm_compute. repeat split; reflexivity.
+Qed.
+Print Assumptions C10_inner_dedent_refuted.
+
+(* (d) a header line indented deeper than the block's indent: the body column is refused *)
+Theorem C10_header_deep_line_refuted :
+  exists p, existsb invalid p = false /\ wfx_prog p = false /\ run_noacl p = GParse 3 "x".
+Proof.
+  exists [Block [TS ("a" ++ nl1 ++ "   b")] None [Yield (YS "x")]]. vm_compute. repeat split; reflexivity.
+Qed.
+Print Assumptions C10_header_deep_line_refuted.
+
+(* (e) a '#' row in column 0 inside a block header: the section is closed between the header and its
+   body, the body lands at top level (no error, but not under the header) *)
+Theorem C10_header_reset_refuted :
+  exists p, existsb invalid p = false /\ wfx_prog p = false /\
+            run_noacl p = GOk [("a", T []); ("x", T [])].
+Proof.
+  exists [Block [TS ("a" ++ nl1 ++ "#")] None [Yield (YS "x")]]. vm_compute. repeat split; reflexivity.
+Qed.
+Print Assumptions C10_header_reset_refuted.
+
+(* what the property's wording gets on these rows even INSIDE the guard: a line yielded in a block whose
+   header vanishes is filed under the row before the block, not "under the block path it was yielded in" *)
+Example C10_example_reattached :
+  wfx_prog [Yield (YS "a"); Block [TS ""] None [Yield (YS "b")]; Yield (YS "c")] = true /\
+  run_noacl [Yield (YS "a"); Block [TS ""] None [Yield (YS "b")]; Yield (YS "c")]
+  = GOk [("a", T [("b", T [])]); ("c", T [])].
+Proof. vm_compute. split; reflexivity. Qed.
+
+(* ---------- the vendor guard split_neutral is not idle: plain programs the vendor's split does touch ---------- *)
+
+(* Cisco: CiscoFormatter.split shifts every line behind an `address-family` row one column to the right until
+   an `exit-address-family` row - which a generator does not yield (the formatter adds block exits).  A block
+   `address-family ...` followed by any other row makes the run fail with ParserError (the generator-side face
+   of the open C04 finding on Cisco address-family blocks). *)
+Definition ex_cisco_af : prog :=
+  [Block [TS "router bgp 1"] None
+     [Block [TS "address-family ipv4"] None [Yield (YS "network 1")]; Yield (YS "x")]].
+
+Theorem C10_cisco_address_family_refuted :
+  exists sk, vendor_splitk "cisco" = Some sk /\ wf_prog ex_cisco_af = true /\
+             split_neutral sk ex_cisco_af = false /\ run_noacl_sk sk ex_cisco_af = GParse 4 "x".
+Proof. eexists. vm_compute. repeat split; reflexivity. Qed.
+Print Assumptions C10_cisco_address_family_refuted.
+
+(* Huawei / H3C: rows whose stripped text starts with end-list / endif / end-filter are dropped by the split: a
+   yielded line silently vanishes (by design of the formatter: these are block terminators of the device) *)
+Theorem C10_huawei_policy_end_refuted :
+  exists sk p, vendor_splitk "huawei" = Some sk /\ wf_prog p = true /\ split_neutral sk p = false /\
+               run_noacl_sk sk p = GOk [("xpl p", T [("if a then", T []); ("pass", T [])])] /\
+               tree_of p = [("xpl p", T [("if a then", T []); ("pass", T []); ("endif", T [])])].
+Proof.
+  eexists. exists [Block [TS "xpl p"] None [Yield (YS "if a then"); Yield (YS "pass"); Yield (YS "endif")]].
+  vm_compute. repeat split; reflexivity.
+Qed.
+Print Assumptions C10_huawei_policy_end_refuted.
+
+(* split_remove_spaces (arista, aruba, b4com, nexus, and inside the other vendor splits): an interior run of
+   blanks is collapsed, the line in the tree is not the line that was yielded *)
+Theorem C10_spaces_rewritten_refuted :
+  exists sk p, vendor_splitk "arista" = Some sk /\ wf_prog p = true /\ split_neutral sk p = false /\
+               run_noacl_sk sk p = GOk [("description a b", T [])] /\ tree_of p = [("description a  b", T [])].
+Proof. eexists. exists [Yield (YS "description a  b")]. vm_compute. repeat split; reflexivity. Qed.
+Print Assumptions C10_spaces_rewritten_refuted.
